@@ -1583,7 +1583,7 @@ def merge_judge(ctx, case, obs):
 def run_merging(ctx, res, big):
     from vlib.sched import explore
     ncases = ctx.budget(30, 200)
-    reported = False
+    reported = set()
     ndis = 0
     cases = []
     cdir = os.path.join(ctx.verif, 'corpus', PID)
@@ -1623,9 +1623,12 @@ def run_merging(ctx, res, big):
                 ndis += 1
                 if ndis <= 3:
                     res.disagreements.append(dict(dis, case={'merging': case, 'schedule': prefix}))
-            if viol and not reported:
-                reported = True
-                res.violations.append({'sig': viol[0], 'what': viol[1], 'case': {'merging': case, 'schedule': prefix}})
+            if viol:
+                # the signature names the kinds of the other threads of the case (a description of the input, not a verdict)
+                sig = viol[0] + ':other-threads=' + '+'.join(kinds)
+                if sig not in reported:
+                    reported.add(sig)
+                    res.violations.append({'sig': sig, 'what': viol[1], 'case': {'merging': case, 'schedule': prefix}})
             if viol:
                 break
 
